@@ -18,12 +18,13 @@ pub const DEFAULT_SEED: u64 = 20260922;
 pub struct Sizes {
     pub generated: usize,
     pub mutated: usize,
+    pub layout: usize,
 }
 
 pub fn sizes(tier: &str) -> Sizes {
     match tier {
-        "thorough" => Sizes { generated: 600, mutated: 400 },
-        _ => Sizes { generated: 60, mutated: 40 },
+        "thorough" => Sizes { generated: 600, mutated: 400, layout: 400 },
+        _ => Sizes { generated: 60, mutated: 40, layout: 40 },
     }
 }
 
